@@ -138,7 +138,7 @@ func (c *Check) Violation(replay any, summary string) {
 		return
 	}
 	c.replays++
-	dir := filepath.Join(VerifDir(), "replays")
+	dir := envOr("VERIF_REPLAY_DIR", filepath.Join(VerifDir(), "replays"))
 	os.MkdirAll(dir, 0o755)
 	path := filepath.Join(dir, fmt.Sprintf("%s-%s-seed%d-%d.json", c.ID, c.Tier, c.Seed, c.replays))
 	data, _ := json.MarshalIndent(map[string]any{"property": c.ID, "summary": summary, "case": replay}, "", " ")
@@ -200,7 +200,7 @@ func (c *Check) Finish() int {
 	if c.Assumptions == nil {
 		ev["assumptions"] = []string{}
 	}
-	dir := filepath.Join(VerifDir(), "evidence")
+	dir := envOr("VERIF_EVIDENCE_DIR", filepath.Join(VerifDir(), "evidence")) // overridden when trying seeded changes
 	os.MkdirAll(dir, 0o755)
 	data, err := json.MarshalIndent(ev, "", " ")
 	Must(err)
